@@ -92,6 +92,79 @@ pub fn run(ctx: &Ctx) -> i32 {
         }
         res
     });
+    // ---- frames holding 65534 .. 70000 chunks: every spelling of the chunk count the format allows ---------------
+    let mut sum = sum;
+    let many = run_stage(ctx, "many-chunk-frames", ctx.tier.pick(10u64, 60u64), |i| {
+        use crate::model::CountStyle;
+        let mut rng = Rng::derive(ctx.seed, "C07-many", i);
+        let mut cfg = GenCfg::tiny();
+        cfg.max_frames = 3;
+        let (sp, palprog) = gen::gen_sprite(&mut rng, &cfg);
+        let mut res = CaseResult::ok(gen::features(&sp) ^ i, 0, "many-chunk-frame");
+        let o2 = ObsOpts::full();
+        let exp = expect(&sp, &o2);
+        let total = [65_534usize, 65_535, 65_536, 65_537, 70_000][(i % 5) as usize];
+        let styles: &[CountStyle] = if total <= 0xFFFF { &[CountStyle::Both, CountStyle::OldOnly, CountStyle::NewOnly] } else { &[CountStyle::NewOnly] };
+        for (k, st) in styles.iter().enumerate() {
+            let mut spec = compile_with(&sp, &mut rng, &Variation::none(), &palprog);
+            let f = if (i / 5 + k as u64) % 2 == 0 { 0 } else { spec.frames.len() - 1 };
+            crate::program::pad_frame(&mut spec, f, total, 0, &mut rng);
+            spec.frames[f].count_style = *st;
+            let bytes = encode(&spec).0;
+            res.count("encodings", 1);
+            res.count(&format!("many_chunks:{}:{:?}", total, st), 1);
+            match load(&bytes) {
+                Err(e) => res.violations.push(Violation::new(format!("load-differs|many-chunks:{:?}|{}", st, err_sig(&e)), format!("frame {} padded to {} chunks with ignorable chunks (count spelled {:?}) fails to load: {}", f, total, st, e)).with_input(&bytes)),
+                Ok(a) => {
+                    let o = observe(&a, &o2);
+                    res.leaves += exp.leaves();
+                    if let Some(d) = diff(&o, &exp) {
+                        res.violations.push(Violation::new(format!("observation-differs|many-chunks:{:?}|{}", st, normalise_digits(&d.path)), format!("frame {} padded to {} chunks with ignorable chunks (count spelled {:?}) changed the observation: {}", f, total, st, d)).with_input(&bytes));
+                    }
+                }
+            }
+        }
+        res
+    });
+    sum.merge(many);
+    // ---- multi-megabyte cels of one flat colour: deflate ratios near the format's maximum (~1030:1) ------------------
+    let flat = run_stage(ctx, "large-flat-cels", ctx.tier.pick(3u64, 12u64), |i| {
+        use crate::model::*;
+        let mut rng = Rng::derive(ctx.seed, "C07-flat", i);
+        let fmt = [Fmt::Rgba, Fmt::Gray, Fmt::Rgba][(i % 3) as usize];
+        let (w, h) = [(2048u16, 1024u16), (4000, 1500), (1500, 1000), (3000, 700)][(i % 4) as usize];
+        let mut sp = Sprite::blank(w, h, fmt, 1);
+        sp.layers.push(LayerM::image("flat"));
+        let one: Vec<u8> = match fmt {
+            Fmt::Rgba => vec![rng.u8(), rng.u8(), rng.u8(), 255],
+            _ => vec![rng.u8(), 255],
+        };
+        let pixels: Vec<u8> = one.iter().cycle().take(w as usize * h as usize * one.len()).cloned().collect();
+        sp.cels.insert((0, 0), CelM { x: 0, y: 0, opacity: 255, content: CelContentM::Image { w, h, pixels }, ud: None });
+        let mut res = CaseResult::ok(gen::features(&sp) ^ i, 0, "large-flat-cel");
+        for st in [Storage::Raw, Storage::Zlib(0), Storage::Zlib(1), Storage::Zlib(6), Storage::Zlib(9), Storage::Stored(65_535)] {
+            let mut v = Variation::none();
+            v.default_storage = st.clone();
+            let bytes = encode(&compile_with(&sp, &mut rng, &v, &crate::program::PaletteProgram::Auto)).0;
+            res.count("encodings", 1);
+            res.count("large_flat_cel_file_bytes", bytes.len() as u64);
+            match load(&bytes) {
+                Err(e) => res.violations.push(Violation::new(format!("load-differs|storage|{}", err_sig(&e)), format!("{}x{} flat-colour cel stored as {:?} ({} file bytes) fails to load: {}", w, h, st, bytes.len(), e)).with_input(&bytes[..bytes.len().min(4096)])),
+                Ok(a) => {
+                    let c = a.cel(0, 0);
+                    let img = c.image();
+                    let want: [u8; 4] = if fmt == Fmt::Rgba { [one[0], one[1], one[2], one[3]] } else { [one[0], one[0], one[0], one[1]] };
+                    let uniform = img.pixels().all(|p| p.0 == want);
+                    if !uniform || c.is_empty() || c.top_left() != (0, 0) || img.width() != w as u32 || img.height() != h as u32 {
+                        res.violations.push(Violation::new("observation-differs|storage|large-flat-cel", format!("{}x{} flat-colour cel stored as {:?}: image not the stored colour everywhere (uniform {}, empty {}, top_left {:?})", w, h, st, uniform, c.is_empty(), c.top_left())));
+                    }
+                    res.leaves += w as u64 * h as u64;
+                }
+            }
+        }
+        res
+    });
+    sum.merge(flat);
     finish(
         ctx,
         sum,
